@@ -54,9 +54,22 @@ def profile(tier):
     }
 
 
+def profile_xy(tier):
+    """XY mode with an SLM mask, one or two global microwave channels, delays before the first
+    pulses: the mask lasts until the end of the first pulse of the channel that starts first."""
+    p = profile(tier)
+    ck = {"bandwidth": [None], "simple_timing": True, "eom": False}
+    return dict(p, min_ops=5, max_ops=12, min_channels=1,
+                weights={"declare": 7, "declare_more": 3, "add": 10, "align": 1, "delay": 8,
+                         "phase_shift": 1, "target": 0, "eom": 0, "add_dmm": 0, "detmap": 0, "slm": 8},
+                device=gen.device_specs(mode="xy", n_channels=(1, 2), allow_builtin=True, chan_kw=ck),
+                register=gen.register_specs(n=(2, 4), layout=False, int_ids=True))
+
+
 @st.composite
-def cases(draw, tier):
-    return dict(prog=draw(gen.programs(profile(tier))), tsel=draw(st.integers(0, 2**31 - 1)))
+def cases(draw, tier, xy=False):
+    return dict(prog=draw(gen.programs(profile_xy(tier) if xy else profile(tier))),
+                tsel=draw(st.integers(0, 2**31 - 1)))
 
 
 def check(case, ctx: Ctx):
@@ -118,7 +131,7 @@ def check(case, ctx: Ctx):
     inter = M.interaction(False)
     has_int = M.n >= 2 and np.any(np.abs(inter) > 1e-12)
     local_term = any((c.addressing == "Local" or c.is_dmm) and c.pulses for c in M.chans.values())
-    ctx.nontrivial(bool(has_int and local_term))
+    ctx.nontrivial(bool(has_int and (local_term or M.masked)))
     ctx.label(f"atoms={M.n}", "xy" if M.in_xy else "ising", f"dim={M.dim}")
     if M.masked:
         ctx.label("slm_mask")
@@ -191,4 +204,7 @@ CLAUSES = [
     Clause("hamiltonian", check, gen=lambda t: cases(t),
            budget={"quick": (16, 60), "thorough": (16, 2500)},
            doc="get_hamiltonian(t) vs the M5 construction at every selected sample time"),
+    Clause("xy_slm_mask", check, gen=lambda t: cases(t, xy=True),
+           budget={"quick": (16, 25), "thorough": (16, 800)},
+           doc="the same for XY programs with an SLM mask, delays before the first pulses, 1-2 global channels"),
 ]
